@@ -8,8 +8,8 @@ import json, os, re, shutil, subprocess, sys, tempfile
 sd = os.path.abspath(sys.argv[1])
 ENV = dict(os.environ, GOFLAGS="-mod=mod", GOPROXY="off", GOSUMDB="off", GOTOOLCHAIN="local", CGO_ENABLED="0")
 ENV.pop("GOWORK", None)
-def run(cmd, cwd, timeout=600):
-    p = subprocess.run(cmd, cwd=cwd, env=ENV, capture_output=True, text=True, errors="replace", shell=isinstance(cmd, str), timeout=timeout)
+def run(cmd, cwd, timeout=600, env=None):
+    p = subprocess.run(cmd, cwd=cwd, env=env or ENV, capture_output=True, text=True, errors="replace", shell=isinstance(cmd, str), timeout=timeout)
     return p.returncode, (p.stdout + p.stderr)
 meta = json.load(open(os.path.join(sd, "meta.json")))
 wt = tempfile.mkdtemp(prefix="confirm_")
@@ -41,7 +41,9 @@ try:
             shutil.copy(demo, dst)
             tags = ["-tags", "debug"] if "-tags debug" in meta.get("demo_cmd", "") or "-tags=debug" in meta.get("demo_cmd", "") else []
             rec["demo_tags"] = tags
-            r = run(["go", "test", "-vet=off", "-count=1"] + tags + ["-run", runpat, "./" + rec["pkg"]], wt)
+            denv = dict(ENV, GOARCH="386") if "GOARCH=386" in meta.get("demo_cmd", "") else None
+            rec["demo_goarch"] = "386" if denv else ""
+            r = run(["go", "test", "-vet=off", "-count=1"] + tags + ["-run", runpat, "./" + rec["pkg"]], wt, env=denv)
             os.remove(dst)
             return r
     else:
@@ -54,7 +56,12 @@ try:
                 gm = re.sub(r"=>\s*\S+", "=> " + wt, gm)
                 open(os.path.join(tmpd, "go.mod"), "w").write(gm)
                 shutil.copy(os.path.join(wt, "go.sum"), tmpd)
-                return run(["go", "run", "."], tmpd)
+                runtxt = ""
+                for f in os.listdir(ddir):
+                    if f.lower().startswith("run"): runtxt += open(os.path.join(ddir, f)).read()
+                tags = ["-tags", "debug"] if "-tags debug" in (meta.get("demo_cmd", "") + runtxt) else []
+                rec["demo_tags"] = tags
+                return run(["go", "run"] + tags + ["."], tmpd)
             finally:
                 shutil.rmtree(tmpd, ignore_errors=True)
     rc0, out0 = rundemo()
